@@ -47,7 +47,7 @@ PairClauses(e) ==
 
 FrozenClauses(e) ==
     << <<"P08.noraise", e.exc = "">>,
-       <<"P08.frozen", e.exc = "" => (e.assignable = <<>> /\ ~e.changed)>>,
+       <<"P08.frozen", e.exc = "" => (e.assignable = <<>> /\ ~e.changed /\ e.mutable = <<>>)>>,
        <<"P08.hashable", e.exc = "" => e.hashable>>,
        <<"P08.identical_code_equal_data", e.exc = "" => (e.twice_eq /\ e.twice_hash)>>,
        \* the same program by different routes (decode, JSON load, hand construction with new objects everywhere,
